@@ -30,6 +30,11 @@ import (
 // which a released task never yields again.
 var Progress atomic.Uint64
 
+// WallExpired is raised by the harness watchdog (which lives on the real
+// clock) when the current run has used up its wall-clock allowance; the run
+// then ends like one that ran out of steps: inconclusive, never a verdict.
+var WallExpired atomic.Bool
+
 // Event is something the scheduler may choose to do next.
 type Event struct {
 	Key     string // total order among simultaneously enabled events
@@ -425,7 +430,7 @@ func (s *Sim) Run(until func() bool, maxV time.Duration) Stop {
 		if !now.Before(deadline) {
 			return StopTime
 		}
-		if s.steps >= s.MaxSteps || s.T.Over {
+		if s.steps >= s.MaxSteps || s.T.Over || WallExpired.Load() {
 			s.mu.Lock()
 			s.Exhausted = true
 			s.mu.Unlock()
